@@ -848,6 +848,24 @@ pub fn c07_configs(ctx: &mut Ctx) {
             }
         }
     }
+    // the full cross product of the remaining settings on a few lists: rendering x clean-up x (threads, ceiling) x k
+    {
+        let pick: Vec<Vec<Vec<u8>>> = vec![vec![b"ACA".to_vec(), b"TGT".to_vec()], vec![b"AAAA".to_vec(), b"".to_vec(), b"TTTT".to_vec()], vec![b"ACGTNACGT".to_vec()], vec![b"acgu".to_vec(), b"ACGT".to_vec(), b"N".to_vec()]];
+        for l in &pick {
+            for k in 1..=3usize {
+                for &(threads, mem) in &cfgs {
+                    for acgt in [false, true] {
+                        for delete in [false, true] {
+                            if sh.mine() {
+                                c07_run(ctx, l, k, threads, mem, acgt, delete, "cross");
+                                n += 1;
+                            }
+                        }
+                    }
+                }
+            }
+        }
+    }
     ctx.rep.count("cases.config_small", n);
     // repetitive and large-k inputs
     let mut big: Vec<(Vec<Vec<u8>>, usize)> = Vec::new();
@@ -912,7 +930,12 @@ fn parse_rows(text: &str, delim: &str) -> Result<Vec<Vec<f64>>, String> {
 }
 
 fn check_cov_rows(text: &str, records: &[Vec<u8>], k: usize, table: &BTreeMap<u128, u64>, bs: usize, bc: usize, norm: bool) -> Result<(), (String, String)> {
-    let rows = parse_rows(text, " ").map_err(|e| ("unparsable-output".to_string(), e))?;
+    check_cov_rows_delim(text, records, k, table, bs, bc, norm, " ")
+}
+
+#[allow(clippy::too_many_arguments)]
+fn check_cov_rows_delim(text: &str, records: &[Vec<u8>], k: usize, table: &BTreeMap<u128, u64>, bs: usize, bc: usize, norm: bool, delim: &str) -> Result<(), (String, String)> {
+    let rows = parse_rows(text, delim).map_err(|e| ("unparsable-output".to_string(), e))?;
     // a row of an empty line cannot exist: bin_count >= 1 means every row has at least one number
     let nlines = text.split('\n').filter(|l| !l.is_empty()).count();
     if nlines != records.len() || rows.len() != records.len() {
@@ -935,6 +958,11 @@ fn check_cov_rows(text: &str, records: &[Vec<u8>], k: usize, table: &BTreeMap<u1
 
 #[allow(clippy::too_many_arguments)]
 fn c08_pipeline(ctx: &mut Ctx, records: &[Vec<u8>], alt: Option<&[Vec<u8>]>, k: usize, bs: usize, bc: usize, norm: bool, threads: usize, mem: f64) {
+    c08_pipeline_delim(ctx, records, alt, k, bs, bc, norm, threads, mem, " ")
+}
+
+#[allow(clippy::too_many_arguments)]
+fn c08_pipeline_delim(ctx: &mut Ctx, records: &[Vec<u8>], alt: Option<&[Vec<u8>]>, k: usize, bs: usize, bc: usize, norm: bool, threads: usize, mem: f64, delim: &str) {
     let dir = format!("{}/c08", ctx.scratch);
     // the directory of the previous case stays as it is: tables and vector files get longer and shorter over one location
     std::fs::create_dir_all(&dir).unwrap();
@@ -945,12 +973,15 @@ fn c08_pipeline(ctx: &mut Ctx, records: &[Vec<u8>], alt: Option<&[Vec<u8>]>, k: 
         write_fasta(&altp, a);
     }
     let enc = |l: &[Vec<u8>]| l.iter().map(|r| hex(r)).collect::<Vec<_>>().join(",");
-    let argv = vec!["case".to_string(), "C08".to_string(), enc(records), alt.map(enc).unwrap_or_else(|| "-".into()), k.to_string(), bs.to_string(), bc.to_string(), (norm as u8).to_string(), threads.to_string(), format!("{:e}", mem)];
+    let argv = vec!["case".to_string(), "C08".to_string(), enc(records), alt.map(enc).unwrap_or_else(|| "-".into()), k.to_string(), bs.to_string(), bc.to_string(), (norm as u8).to_string(), threads.to_string(), format!("{:e}", mem), hex(delim.as_bytes())];
     ctx.journal.note(|| format!("C08 {:?}", argv));
     ctx.rep.evaluations += 1;
     let r = guard(|| {
         let mut c = CovComputer::new(inp.clone(), dir.clone(), k, bs, bc);
         // both orders of the setter calls are used (by case parity)
+        if delim != " " {
+            c.set_delim(delim.to_string());
+        }
         if (threads + bs + records.len()) % 2 == 0 {
             c.set_threads(threads);
             c.set_norm(norm);
@@ -979,8 +1010,8 @@ fn c08_pipeline(ctx: &mut Ctx, records: &[Vec<u8>], alt: Option<&[Vec<u8>]>, k: 
     if !text.is_empty() && text.len() % 4096 == 0 {
         ctx.rep.count("outputs_on_a_4k_multiple", 1);
     }
-    if let Err((key, msg)) = check_cov_rows(&text, records, k, &table, bs, bc, norm) {
-        return viol(ctx, &key, size, format!("{what}: {msg}"), argv);
+    if let Err((key, msg)) = check_cov_rows_delim(&text, records, k, &table, bs, bc, norm, delim) {
+        return viol(ctx, &key, size, format!("{what} delimiter {delim:?}: {msg}"), argv);
     }
     if records.iter().any(|r| r.len() >= k) {
         ctx.rep.nontrivial += 1;
@@ -1318,6 +1349,32 @@ pub fn c08(ctx: &mut Ctx) {
                         let use_alt = (si + ci + k) % 3 == 0;
                         c08_pipeline(ctx, l, if use_alt { Some(&alt) } else { None }, k, bs, bc, norm, threads, mem);
                         n += 1;
+                        if l.len() <= 1 {
+                            // the other setting of "counting input" too: on the shortest lists the cross product is full
+                            c08_pipeline(ctx, l, if use_alt { None } else { Some(&alt) }, k, bs, bc, norm, threads, mem);
+                            n += 1;
+                        }
+                    }
+                }
+            }
+        }
+    }
+    // every combination of the remaining settings on three short lists: delimiter x raw/normalised x counting input x
+    // (threads, ceiling) x bin shape
+    {
+        let pick: Vec<Vec<Vec<u8>>> = vec![vec![b"ACA".to_vec(), b"CAN".to_vec()], vec![b"AAAA".to_vec()], vec![b"".to_vec(), b"ACGTAC".to_vec(), b"acgu".to_vec()]];
+        for l in &pick {
+            for delim in [",", "\t", "::"] {
+                for norm in [true, false] {
+                    for use_alt in [false, true] {
+                        for &(threads, mem) in &cfgs {
+                            for &(bs, bc) in &[(1usize, 3usize), (2, 2)] {
+                                if sh.mine() {
+                                    c08_pipeline_delim(ctx, l, if use_alt { Some(&alt) } else { None }, 2, bs, bc, norm, threads, mem, delim);
+                                    n += 1;
+                                }
+                            }
+                        }
                     }
                 }
             }
@@ -1532,7 +1589,8 @@ pub fn replay(ctx: &mut Ctx, args: &[String]) {
         }
         "C08" => {
             let alt = if args[2] == "-" { None } else { Some(dec(&args[2])) };
-            c08_pipeline(ctx, &dec(&args[1]), alt.as_deref(), args[3].parse().unwrap(), args[4].parse().unwrap(), args[5].parse().unwrap(), args[6] == "1", args[7].parse().unwrap(), args[8].parse().unwrap());
+            let delim = args.get(9).map(|d| String::from_utf8(unhex(d)).unwrap()).unwrap_or_else(|| " ".to_string());
+            c08_pipeline_delim(ctx, &dec(&args[1]), alt.as_deref(), args[3].parse().unwrap(), args[4].parse().unwrap(), args[5].parse().unwrap(), args[6] == "1", args[7].parse().unwrap(), args[8].parse().unwrap(), &delim);
         }
         "C08one" => {
             let k: usize = args[2].parse().unwrap();
